@@ -1393,6 +1393,14 @@ def _sig_star_import_deleted(c):
     return bool(star(src) - star(out) - named) and _status(c, "NameError") and not _calls(src, "eval", "exec")
 
 
+def live_findings(pid="C02"):
+    """The lines of KNOWN_FINDINGS.txt for this property.  The file is append-only: a `finding:` line whose id also
+    has a `fixed:` line is superseded by it (it neither suppresses anything nor counts as a known finding)."""
+    kf = common.load_findings(pid)
+    fixed = {f.id for f in kf if f.kind == "fixed"}
+    return [f for f in kf if not (f.kind == "finding" and f.id in fixed)]
+
+
 def match_finding(kf, case):
     for f in kf:
         if f.kind != "finding" or f.fields.get("site") not in (case["rule"], "*"):
@@ -1524,7 +1532,7 @@ def main(argv):
     run = common.Run(PID, "quick", 0)
     wd = common.workdir(PID + "sw")
     mods = common.import_impl()
-    kf = common.load_findings(PID)
+    kf = live_findings()
     hist = Counter()
     global TRIGGERS
     if argv:
